@@ -417,24 +417,27 @@ def coordination(k, commas, parents=()):
 
 
 def wide_treebanks(ctx):
+    """(repeats, treebank): repeats = some rule occurs repeatedly / under different parents"""
     kmin, kmax = BOUNDS(ctx)["wide_children"]
     every = _patterns(kmin, BOUNDS(ctx)["wide_all_patterns_tags"])
     periodic = [p for k in range(kmin, kmax + 1) for p in _periodic(k)]
-    singles = every + [p for p in periodic if p not in every]
-    for p in singles:
-        yield [wide_top(p)]
-    yield [coordination(4, True)]
-    yield [coordination(5, False)]
-    for p in _periodic(kmin)[:3] + _periodic(kmin + 1)[:2]:
-        yield [wide_gap(p, (3,))]
-        yield [wide_gap(p, (2, 5))]
+    for p in every + [p for p in periodic if p not in every]:
+        yield False, [wide_top(p)]
+    yield False, [coordination(4, True)]
+    yield False, [coordination(5, False)]
+    for p in _periodic(kmin)[:2] + _periodic(kmin + 1)[:1]:
+        yield False, [wide_gap(p, (3,))]
+        yield False, [wide_gap(p, (2, 5))]
     # the quantifier of the property: the same rule repeatedly and under different parents
-    for p in periodic:
-        yield [wide_top(p), wide_below_s(p), wide_below_s(p)]
-        yield [wide_twice(p)]
-    yield [coordination(4, True, ("S",)), coordination(4, True, ("S", "VP")), coordination(4, True, ("S", "VP"))]
-    yield [wide_gap((0, 1, 0, 1, 0), (3,)), continuous_twin(wide_gap((0, 1, 0, 1, 0), (3,))),
-           wide_gap((0, 1, 0, 1, 0), (3,))]
+    for k in range(kmin, kmax + 1):
+        for p in _periodic(k)[:3]:
+            yield True, [wide_top(p), wide_below_s(p), wide_below_s(p)]
+    for p in _periodic(kmin)[:3]:
+        yield True, [wide_twice(p)]
+    yield True, [coordination(4, True, ("S",)), coordination(4, True, ("S", "VP")),
+                 coordination(4, True, ("S", "VP"))]
+    g = wide_gap((0, 1, 0, 1, 0), (3,))
+    yield True, [g, continuous_twin(g), g]
 
 
 def treebanks(ctx):
@@ -475,8 +478,8 @@ def treebanks(ctx):
             tb.append(tb[0])
         yield False, tb[:3]
     # last, so that the enumeration above is what it was before this family existed
-    for tb in wide_treebanks(ctx):
-        yield "all", tb
+    for repeats, tb in wide_treebanks(ctx):
+        yield ("all" if repeats else "all-wide"), tb
 
 
 def configs(ctx, every=False):
@@ -508,7 +511,7 @@ def generate(ctx):
     for ti, (full, tb) in enumerate(treebanks(ctx)):
         nt = _nontrivial(tb)
         name = " ".join(tg.spec_str(s) for s in tb)
-        if full == "all":
+        if full in ("all", "all-wide"):
             these = all_cfgs
         elif full:
             these = cfgs
@@ -519,8 +522,12 @@ def generate(ctx):
             w = {"specs": tb, "gramtype": gt, "markov": m}
             key = "%s %s/%s" % (name, gt, L.markov_name(m)) if nt else None
             for c in ("lhs_counts", "balance", "rule_occurrences"):
+                if c == "rule_occurrences" and full == "all-wide" and m is not None:
+                    # one tree, no rule twice: under Markov labels this clause could only look at
+                    # the rules with at most two children, each seen once
+                    continue
                 yield c, w, key
-            if m is None or ti % 7 == 0:
+            if m is None or (ti % 7 == 0 and full != "all-wide"):
                 for c in ("file_counts_pmcfg", "file_counts_rcg", "file_counts_lopar"):
                     yield c, w, key
 
